@@ -82,6 +82,16 @@ CHECKS = {
          "DESIGN.md §7 C15",
          "Go randomises map iteration per range statement, so K repetitions miss a two-way order dependence with probability 2^-(K-1); dependence on pointer values or time would show as differences between processes.",
          "property-based metamorphic testing: repeated builds of generated histories, within and across processes"),
+ "C09": ("exploration",
+         "Model-based state-machine testing (rapid) over a three-file package and seven synthetic packages (three with the same base name): switch file, reference values/types/functions from bodies, initialisers, signatures and type declarations, force-import, declare colliding names at package level and as parameter/result/:=/var/range/type-switch variable around a later reference, discard references, declare _autoGo_N, write mid-history and continue. After every write: all files type-check together (unused imports are violations; unique exported names make a wrong qualifier ill-typed), import set == model per file, names unique and different from declared package-level identifiers.",
+         "DESIGN.md §7 C09",
+         "A declaration that collides with an import name chosen at an earlier write is outside the domain (the earlier file was valid when written). ForEachFile order is not compared.",
+         "property-based stateful testing against a reference model of the import sets, go/types on the written files"),
+ "C07": ("exploration",
+         "One call of / reference to one of 21 generic functions (all constraint kinds, type parameters at depth inside slices, maps, pointers, channels, functions and generic structs, variadic tails, un-inferable parameters) per generated program, with arguments drawn from typed values, untyped constants of every kind, nil, literals, generic function values, nested generic calls, optional full/partial explicit instantiation, spread, typed result contexts and assignment to typed function variables. go/types decides accept/reject (must agree); for accepted programs the builder's reported result/reference type must equal go/types' and the canonical dump of the emitted code, which includes Info.Instances of every generic callee, must equal the source's.",
+         "DESIGN.md §7 C07",
+         "go/types (go1.23) is the oracle; inference itself is go/types' routine reached through linkname, the adapter around it is what is tested.",
+         "property-based testing: generated generic calls, differential against go/types (verdict, Info.Instances, types)"),
  "C19": ("exploration",
          "Model-based state-machine testing (rapid): random Set/Delete/At/Len/Keys/Iterate/String histories over a pool of generated type keys containing structurally identical but pointer-distinct rebuilds, aliases, permuted/flattened interfaces, permuted unions, renamed type parameters, separately created instantiations, deliberate hash-collision twins and same-named foreign types; after every step every observable is compared with an association list over types.Identical, and Identical=>equal-hash is checked on all pool pairs. Sampling, not proof: right level because the property quantifies over unbounded histories and type shapes.",
          "DESIGN.md §7 C19",
